@@ -15,7 +15,7 @@
    All literals, orders, tables and indices are the regenerated Gen/C18_SpecsMatcher.v values. *)
 From Coq Require Import String.
 Require Import OV.Base.Bytes OV.Base.Py OV.Base.PyInt OV.Base.Str OV.Base.Regex OV.Base.PyFloat.
-Require Import OV.Gen.C18_SpecsMatcher OV.Model.C18 OV.Proofs.C18.
+Require Import OV.Gen.Unicode OV.Gen.C18_SpecsMatcher OV.Model.C18 OV.Proofs.C18.
 Open Scope N_scope.
 
 (* ---------------------------------------------------------------- the table *)
@@ -52,6 +52,17 @@ Proof. exact operator_spelling. Qed.
 Print Assumptions C18_operator_spelling.
 
 (* ---------------------------------------------------------------- the grammar *)
+
+(* the character class of Regex(r"\S+") (generated from CPython's regex compiler) is, within the
+   code point range, the complement of str.isspace() (generated from the interpreter's Unicode
+   table): a "word" below is a run of non-whitespace characters in Python's sense, [stops] means
+   "empty or starts with a whitespace character"; the four characters pyparsing skips are whitespace *)
+Theorem C18_word_characters :
+  (forall c, c <= 1114111 -> cmem c atom_cs = negb (is_space c)) /\
+  (forall c, is_pp_ws c = true -> is_space c = true).
+Proof. exact (conj atom_class_is_nonspace skipped_are_space). Qed.
+Print Assumptions C18_word_characters.
+
 
 (* operator + word, for every unary operator of the grammar (longer operators win:
    '==' over '=', '<=' '<in>' over '<', 's<=' over 's<', ...) *)
